@@ -41,7 +41,12 @@ func NewContractManager(clonefactoryAddr, ownerAddr common.Address, createContra
 }
 
 func (cm *ContractManager) Run(ctx context.Context) error {
+	// whatever ends Run stops the contracts it started: waiting for them without stopping them
+	// keeps a manager that failed (a refused call during the scan or in an event handler) from
+	// returning its error, and the node alive without anybody watching the clone factory
+	ctx, cancel := context.WithCancel(ctx)
 	defer func() {
+		cancel()
 		cm.log.Info("waiting for all contracts to stop")
 		cm.contractsWG.Wait()
 		cm.log.Info("all contracts stopped")
